@@ -743,6 +743,9 @@ func bindResults(names map[string]Val, sig *types.Signature, res []string) {
 func (fr *Frame) callsiteSpecs(st *State, key string, callee *ssa.Function, args []string, cc *ssa.CallCommon, isGo bool, pos token.Pos) {
 	x := fr.x
 	top := x.topFrame
+	if top != nil && top.ct != nil && key != "" && fr == top && !isGo {
+		x.bindAliases(fr, top.ct, key, callee, cc)
+	}
 	if top == nil || top.ct == nil || len(top.ct.Calls) == 0 || key == "" {
 		return
 	}
@@ -787,6 +790,7 @@ func (fr *Frame) callsiteSpecs(st *State, key string, callee *ssa.Function, args
 				for i, b := range mc.Bindings {
 					fv := callee.FreeVars[i]
 					sc.vars["$"+fv.Name()] = Val{T: fr.val(b), Ty: b.Type(), ptrToVar: true}
+					sc.vars[fmt.Sprintf("$fv%d", i)] = Val{T: fr.val(b), Ty: b.Type(), ptrToVar: true}
 				}
 			}
 		}
@@ -883,6 +887,7 @@ func (fr *Frame) freeBindings(callee *ssa.Function, cc *ssa.CallCommon) map[stri
 	for i, b := range mc.Bindings {
 		if i < len(callee.FreeVars) {
 			out[callee.FreeVars[i].Name()] = Val{T: fr.val(b), Ty: b.Type(), ptrToVar: true}
+			out[fmt.Sprintf("fv%d", i)] = Val{T: fr.val(b), Ty: b.Type(), ptrToVar: true}
 		}
 	}
 	return out
